@@ -1,6 +1,7 @@
 package values
 
 import (
+	"math"
 	"reflect"
 )
 
@@ -29,8 +30,9 @@ func Equal(a, b any) bool { //nolint: gocyclo
 		return true
 	case reflect.Bool:
 		return ra.Bool() == rb.Bool()
-	case reflect.Int, reflect.Int8, reflect.Int16, reflect.Int32, reflect.Int64:
-		return ra.Convert(int64Type).Int() == rb.Convert(int64Type).Int()
+	case reflect.Int, reflect.Int8, reflect.Int16, reflect.Int32, reflect.Int64,
+		reflect.Uint, reflect.Uint8, reflect.Uint16, reflect.Uint32, reflect.Uint64:
+		return compareInts(ra, rb) == 0
 	case reflect.Float32, reflect.Float64:
 		return ra.Convert(float64Type).Float() == rb.Convert(float64Type).Float()
 	case reflect.String:
@@ -77,8 +79,9 @@ func Less(a, b any) bool {
 	switch joinKind(ra.Kind(), rb.Kind()) {
 	case reflect.Bool:
 		return !ra.Bool() && rb.Bool()
-	case reflect.Int, reflect.Int8, reflect.Int16, reflect.Int32, reflect.Int64:
-		return ra.Convert(int64Type).Int() < rb.Convert(int64Type).Int()
+	case reflect.Int, reflect.Int8, reflect.Int16, reflect.Int32, reflect.Int64,
+		reflect.Uint, reflect.Uint8, reflect.Uint16, reflect.Uint32, reflect.Uint64:
+		return compareInts(ra, rb) < 0
 	case reflect.Float32, reflect.Float64:
 		return ra.Convert(float64Type).Float() < rb.Convert(float64Type).Float()
 	case reflect.String:
@@ -97,7 +100,8 @@ func joinKind(a, b reflect.Kind) reflect.Kind { //nolint: gocyclo
 		if b == reflect.Array || b == reflect.Slice {
 			return reflect.Slice
 		}
-	case reflect.Int, reflect.Int8, reflect.Int16, reflect.Int32, reflect.Int64:
+	case reflect.Int, reflect.Int8, reflect.Int16, reflect.Int32, reflect.Int64,
+		reflect.Uint, reflect.Uint8, reflect.Uint16, reflect.Uint32, reflect.Uint64:
 		if isIntKind(b) {
 			return reflect.Int64
 		}
@@ -112,9 +116,49 @@ func joinKind(a, b reflect.Kind) reflect.Kind { //nolint: gocyclo
 	return reflect.Invalid
 }
 
+// compareInts compares two signed or unsigned integer values of any width by numeric value.
+func compareInts(ra, rb reflect.Value) int {
+	an, abig := asInt64(ra)
+	bn, bbig := asInt64(rb)
+	switch {
+	case abig && bbig:
+		switch au, bu := ra.Uint(), rb.Uint(); {
+		case au < bu:
+			return -1
+		case au > bu:
+			return 1
+		}
+		return 0
+	case abig:
+		return 1
+	case bbig:
+		return -1
+	}
+	switch {
+	case an < bn:
+		return -1
+	case an > bn:
+		return 1
+	}
+	return 0
+}
+
+// asInt64 returns an integer value as an int64; big reports an unsigned value above MaxInt64.
+func asInt64(v reflect.Value) (n int64, big bool) {
+	if v.CanUint() {
+		u := v.Uint()
+		if u > math.MaxInt64 {
+			return 0, true
+		}
+		return int64(u), false
+	}
+	return v.Int(), false
+}
+
 func isIntKind(k reflect.Kind) bool {
 	switch k {
-	case reflect.Int, reflect.Int8, reflect.Int16, reflect.Int32, reflect.Int64:
+	case reflect.Int, reflect.Int8, reflect.Int16, reflect.Int32, reflect.Int64,
+		reflect.Uint, reflect.Uint8, reflect.Uint16, reflect.Uint32, reflect.Uint64:
 		return true
 	default:
 		return false
